@@ -46,27 +46,95 @@ func (c *Ctx) rulesTable() (rows []ruleRow, arrayLen int64, err error) {
 		a, ok := t.Underlying().(*types.Array)
 		return ok && isNamed(a.Elem(), bclPath, "parseRule")
 	})
-	if len(lits) != 1 {
-		return nil, 0, fmt.Errorf("expected exactly one array literal of parseRule, found %d", len(lits))
-	}
-	lit := lits[0]
-	arrayLen = c.typeOf(lit).Underlying().(*types.Array).Len()
 	toks := constsOfType(c.Bcl, "tokenType")
 	precs := constsOfType(c.Bcl, "precedence")
-	for _, el := range lit.Elts {
-		kv, ok := el.(*ast.KeyValueExpr)
-		if !ok {
-			return nil, 0, fmt.Errorf("%s: unkeyed element in the rules literal", c.pos(el.Pos()))
+	type entry struct {
+		key int64
+		pos token.Pos
+		val *ast.CompositeLit
+	}
+	var entries []entry
+	switch {
+	case len(lits) == 1:
+		lit := lits[0]
+		arrayLen = c.typeOf(lit).Underlying().(*types.Array).Len()
+		for _, el := range lit.Elts {
+			kv, ok := el.(*ast.KeyValueExpr)
+			if !ok {
+				return nil, 0, fmt.Errorf("%s: unkeyed element in the rules literal", c.pos(el.Pos()))
+			}
+			kval, ok := c.intConst(kv.Key)
+			if !ok {
+				return nil, 0, fmt.Errorf("%s: non-constant key in the rules literal", c.pos(kv.Pos()))
+			}
+			val, ok := kv.Value.(*ast.CompositeLit)
+			if !ok {
+				return nil, 0, fmt.Errorf("%s: rules row is not a composite literal", c.pos(kv.Pos()))
+			}
+			entries = append(entries, entry{kval, kv.Pos(), val})
 		}
-		kval, ok := c.intConst(kv.Key)
-		if !ok {
-			return nil, 0, fmt.Errorf("%s: non-constant key in the rules literal", c.pos(kv.Pos()))
+	case len(lits) == 0:
+		// the table written as a function: switch t { case tX, tY: return parseRule{…} … }; return parseRule{}
+		found := false
+		for _, it := range c.sortedDecls() {
+			fn, ok := it.obj.(*types.Func)
+			if !ok || it.fd.Body == nil || fn.Pkg() == nil || fn.Pkg().Path() != bclPath {
+				continue
+			}
+			sig := fn.Type().(*types.Signature)
+			if sig.Recv() != nil || sig.Params().Len() != 1 || sig.Results().Len() != 1 || !isNamed(sig.Params().At(0).Type(), bclPath, "tokenType") || !isNamed(sig.Results().At(0).Type(), bclPath, "parseRule") {
+				continue
+			}
+			var sw *ast.SwitchStmt
+			for _, st := range it.fd.Body.List {
+				if x, ok := st.(*ast.SwitchStmt); ok && x.Tag != nil && c.isObj(x.Tag, c.paramObj(it.fd, 0)) {
+					sw = x
+				}
+			}
+			if sw == nil || found {
+				continue
+			}
+			found = true
+			for _, arm := range c.switchArms(sw) {
+				if arm.Default {
+					continue
+				}
+				if len(arm.Body) != 1 {
+					return nil, 0, fmt.Errorf("%s: a case of the rules function does more than return a rule", c.pos(arm.Clause.Pos()))
+				}
+				rs, isR := arm.Body[0].(*ast.ReturnStmt)
+				if !isR || len(rs.Results) != 1 {
+					return nil, 0, fmt.Errorf("%s: a case of the rules function does more than return a rule", c.pos(arm.Clause.Pos()))
+				}
+				val, isCL := stripParens(rs.Results[0]).(*ast.CompositeLit)
+				if !isCL {
+					return nil, 0, fmt.Errorf("%s: rules row is not a composite literal", c.pos(rs.Pos()))
+				}
+				for _, e := range arm.Exprs {
+					kval, ok := c.intConst(e)
+					if !ok {
+						return nil, 0, fmt.Errorf("%s: non-constant case in the rules function", c.pos(e.Pos()))
+					}
+					entries = append(entries, entry{kval, e.Pos(), val})
+				}
+			}
+			// the table spans all token types
+			for _, t := range toks {
+				if t.Val+1 > arrayLen {
+					arrayLen = t.Val + 1
+				}
+			}
 		}
-		row := ruleRow{Token: constNameOf(toks, kval), TokVal: kval, Pos: kv.Pos()}
-		val, ok := kv.Value.(*ast.CompositeLit)
-		if !ok {
-			return nil, 0, fmt.Errorf("%s: rules row is not a composite literal", c.pos(kv.Pos()))
+		if !found {
+			return nil, 0, fmt.Errorf("expected exactly one array literal of parseRule (or a function from tokenType to parseRule), found none")
 		}
+	default:
+		return nil, 0, fmt.Errorf("expected exactly one array literal of parseRule, found %d", len(lits))
+	}
+	for _, en := range entries {
+		kval, val := en.key, en.val
+		kv := en
+		row := ruleRow{Token: constNameOf(toks, kval), TokVal: kval, Pos: kv.pos}
 		fields := map[string]ast.Expr{}
 		names := []string{"prefix", "infix", "prec"}
 		for i, e := range val.Elts {
@@ -76,6 +144,7 @@ func (c *Ctx) rulesTable() (rows []ruleRow, arrayLen int64, err error) {
 				fields[names[i]] = e
 			}
 		}
+		_ = kv
 		fn := func(e ast.Expr) (string, error) {
 			if e == nil {
 				return "", nil
